@@ -739,12 +739,13 @@ def make_case(tree, qs, sig, desc, nontriv, o=None, build_error=None):
     f32 = uses_float32(tree) or (x is not None and x.dtype == np.float32)
     tol, tol_tok = (TOL32, TOL32_TOK) if f32 else (TOL, TOL_TOK)
     spec_ok = int_casts_exact(tree)
-    if build_error is not None:
-        impl = 'err ' + build_error
-    elif o is None:
-        impl = _call(lambda: apply_query(build(tree), qs))
-    else:
-        impl = _call(lambda: apply_query(o, qs))
+    kind = [None]
+
+    def run_impl():
+        obj = o if o is not None else build(tree)
+        kind[0] = obj_kind(obj)
+        return apply_query(obj, qs)
+    impl = ('err ' + build_error) if build_error is not None else _call(run_impl)
     ok = impl.startswith('ok ')
     tt = ('T ' + et) if q in TRANSPOSED else et
     canon, spec = None, None
@@ -772,6 +773,11 @@ def make_case(tree, qs, sig, desc, nontriv, o=None, build_error=None):
         run = 'c15.d2u_unweighted ' + et
     else:
         raise ToolFailure('unknown query %r' % (q,))
+    if (spec is None and ok and x is not None and q != 'dot-wrong-length' and tree[0] == 'astype'
+            and CAST[tree[2]] == 'int' and kind[0] in ('slr', 'con') and x.dtype.kind in 'bi' and impl.split(' ')[-1] != '-'):
+        # the parts are not integers, so `denote` does not apply (cast of the parts, not of the matrix); what the cast
+        # guarantees all the same: integer input gives integer output (C15.astype_int_integral)
+        spec = 'c15.spec_integral ' + impl.split(' ')[-1]
     key = (q, et, json.dumps(qs.get('x'), sort_keys=True), json.dumps(sig, sort_keys=True))
     nt = nontriv and q != 'dot-wrong-length'
     return Case(key, dict(sig, query=q), run, impl, spec, nt, dict(desc, qs=qs), canon=canon,
